@@ -1,6 +1,7 @@
 (* C10 - Every prefix of the output is a consistent truncated minidump.   Property theorems only. *)
 From Coq Require Import List NArith Arith.
 From MDW Require Import Bytes DirSection DirSectionProofs Prefix DirTrace TraceProofs TraceSeqProofs.
+From MDW Require MemWriter Writer MiniDump RefsInside.
 Import ListNotations.
 Local Open Scope nat_scope.
 
@@ -78,3 +79,11 @@ Theorem C10_refuted_entry_first :
   length (d_bytes d1) = 44 /\ N.to_nat (e_rva (slice (d_bytes d1) 32 12)) + N.to_nat (e_size (slice (d_bytes d1) 32 12)) = 144.
 Proof. exact entry_first_dangling. Qed.
 Print Assumptions C10_refuted_entry_first.
+
+(* "... and the bytes of everything that stream references": in every state of the image builder that satisfies its
+   invariant - after every step of the reduced whole dump, hence whenever a section is flushed - each location already
+   stored in the image designates bytes that are already part of the image built so far (or is the empty location). *)
+Theorem C10_references_already_present : forall s,
+  Writer.Inv s -> Forall (RefsInside.ref_inside (length (Writer.w_buf s))) (Writer.w_refs s).
+Proof. exact RefsInside.inv_refs_inside. Qed.
+Print Assumptions C10_references_already_present.
